@@ -209,7 +209,8 @@ class World:
 
     # ---- upper bound by companion elimination ----
     def _seq(self, a):
-        return int(re.search(r'(\d+)$', a).group(1))
+        m_ = re.search(r'(\d+)$', a)
+        return int(m_.group(1)) if m_ else 0
 
     def bound_ub(self, E, limit=600):
         """an upper bound of the integer polynomial E.  Sound steps only: (i) replacing an atom by its defining polynomial (an
